@@ -9,6 +9,7 @@ import (
 	"encoding/json"
 	"fmt"
 	"reflect"
+	"strings"
 
 	ap "github.com/go-ap/activitypub"
 )
@@ -42,6 +43,7 @@ func jsonPairs(it ap.Item, emit func(via string, out ap.Item, raw []byte, err er
 		if e != nil {
 			return fmt.Errorf("decode: %w", e)
 		}
+		clobberDecode(len(data))
 		return nil
 	})
 	emit("pkg", out, data, err)
@@ -79,6 +81,16 @@ func jsonPairs(it ap.Item, emit func(via string, out ap.Item, raw []byte, err er
 		return nil
 	})
 	emit("type", fresh.Interface().(ap.Item), data2, err)
+}
+
+// clobberDecode decodes an unrelated document of at least n bytes: a decoded value must not share memory with
+// the decoder's buffers, so whatever is decoded later must not change it
+func clobberDecode(n int) {
+	pad := strings.Repeat("Z", n+64)
+	doc := `{"id":"https://clobber.example/` + pad + `","type":"Note","name":"` + pad + `","summary":"` + pad + `","content":"` + pad +
+		`","preferredUsername":"` + pad + `","source":{"content":"` + pad + `","mediaType":"text/plain"},"nameMap":{"en":"` + pad + `"}}`
+	_, _ = ap.UnmarshalJSON([]byte(doc))
+	_, _ = ap.UnmarshalJSON([]byte(`{"type":"Person","id":"https://clobber.example/p","preferredUsername":"` + pad + `"}`))
 }
 
 func gobPairs(it ap.Item, emit func(via string, out ap.Item, raw []byte, err error)) {
